@@ -2,11 +2,20 @@
 From DltV.Model Require Import Bytes RustInt Utf8 Nom Dlt Parse Wire.
 From DltV.Spec Require Import WellFormed.
 From DltV.Spec Require Layout.
+From DltV.Spec Require NonVerbose.
 From DltV.Model Require Import Stats Reader Stream Float FibexWire Scan.
 Open Scope N_scope.
 
 Definition w_cres (x : option (list argument)) : list wtok :=
   match x with Some args => WN 0 :: w_list w_arg args | None => [WN 1] end.
+
+(* 13 CONSTRUCT on very long type lists (thousands of signals): [construct_arguments] mirrors the implementation's
+   indexing into the payload (`data[offset..]`), which on lists costs a walk from the front for every field; beyond
+   2000 types the run evaluates the field-by-field decoder of Spec/NonVerbose.v instead, which is the same function
+   on every input (Properties/C13.v [c13_refines]; the equation for this very definition is
+   Properties/C13b.v [c13b_run_shortcut]). *)
+Definition construct_for_run (e : endian) (tys : list type_info) (d : list byte) : option (list argument) :=
+  if 2000 <? len tys then NonVerbose.spec_construct e tys d else construct_arguments e tys d.
 
 Definition op_parse (ts : list wtok) : list wtok :=
   run_rd (rlet sh := r_bool in rlet f := r_opt r_filter in rlet bs := r_bytes in rret (sh, f, bs)) ts
@@ -22,8 +31,16 @@ Definition op_arg (ts : list wtok) : list wtok :=
     [WN (arg_len a)] ++ w_bool (arg_valid a) ++
     (if arg_bytes_overflows a then [WN 1] else [WN 0; WB (arg_bytes e a)])).
 
+(* time argument of add_storage_header: 0 = not called, 1 t = called with Some t, 2 = called with None (the
+   implementation reads the clock; the harness blanks the time it got before printing, so the model uses 0/0) *)
+Definition r_tsmode : rd (option timestamp) :=
+  rlet k := r_n in
+  if k =? 0 then rret None
+  else if k =? 1 then rlet t := r_ts in rret (Some t)
+  else rret (Some (mkTS 0 0)).
+
 Definition op_new (ts : list wtok) : list wtok :=
-  run_rd (rlet c := r_cfg in rlet sh := r_opt r_sh in rlet ts := r_opt r_ts in rret (c, sh, ts)) ts
+  run_rd (rlet c := r_cfg in rlet sh := r_opt r_sh in rlet ts := r_tsmode in rret (c, sh, ts)) ts
     (fun '(c, sh, t) =>
        let m := message_new c sh in
        let m := match t with Some t => add_storage_header m t | None => m end in
@@ -181,8 +198,7 @@ Definition op_filt_hand (ts : list wtok) : list wtok :=
        else WN 0 :: w_pres w_parsed (dlt_message (message_bytes m ++ suffix) (Some p') (has_storage m))).
 
 (* 28 STABLE: parse bytes; re-serialise a returned message; parse again (C16) *)
-Definition op_stable (ts : list wtok) : list wtok :=
-  run_rd (rlet sh := r_bool in rlet bs := r_bytes in rret (sh, bs)) ts (fun '(sh, bs) =>
+Definition stable_of (sh : bool) (bs : list byte) : list wtok :=
     match dlt_message bs None sh with
     | POk (Item m) _ =>
       if message_bytes_overflows m then [WN 1; WN 1]
@@ -199,7 +215,15 @@ Definition op_stable (ts : list wtok) : list wtok :=
            end
          else [WN 7])
     | _ => [WN 0]
-    end).
+    end.
+Definition op_stable (ts : list wtok) : list wtok :=
+  run_rd (rlet sh := r_bool in rlet bs := r_bytes in rret (sh, bs)) ts (fun '(sh, bs) => stable_of sh bs).
+(* 38 NEW_THEN_STABLE: the implementation first builds a message from the configuration and drops it unwritten,
+   then does what op 28 does on the bytes; nothing of the first step may show in the second (the model has no
+   state, so it ignores the configuration) *)
+Definition op_new_then_stable (ts : list wtok) : list wtok :=
+  run_rd (rlet c := r_cfg in rlet s := r_opt r_sh in rlet sh := r_bool in rlet bs := r_bytes in rret (c, s, sh, bs)) ts
+    (fun '(_, _, sh, bs) => stable_of sh bs).
 
 
 (* 27 FILTERCFG: the processed configuration, sets in canonical (sorted) order *)
@@ -368,7 +392,7 @@ Definition run_case (op : N) (ts : list wtok) : list wtok :=
             | None => [WN 0]
             end)
   | 13 => run_rd (rlet e := r_endian in rlet tys := r_list r_ti in rlet d := r_bytes in rret (e, tys, d)) ts
-            (fun '(e, tys, d) => w_cres (construct_arguments e tys d))
+            (fun '(e, tys, d) => w_cres (construct_for_run e tys d))
   | 14 => op_arg ts
   | 15 => op_new ts
   | 20 => op_rt ts
@@ -379,6 +403,7 @@ Definition run_case (op : N) (ts : list wtok) : list wtok :=
   | 26 => op_filt ts
   | 27 => run_rd r_filter ts (fun f => w_processed (process_filter f))
   | 28 => op_stable ts
+  | 38 => op_new_then_stable ts
   | 30 => op_filt_hand ts
   | 31 => op_prefix_at ts
   | 29 => op_streamj ts
